@@ -494,6 +494,8 @@ def _large_job(cls, tier):
 
 
 def _job(job):
+    if job[0] == 'alts':
+        return ('alts',) + _alts_job(job[1], job[2])
     if job[0] == 'large':
         return ('large',) + _large_job(job[1], job[2])
     if job[0] == 'hwe':
@@ -501,9 +503,61 @@ def _job(job):
     return ('tables',) + _table_shard(job[1:])
 
 
+def judge_alts(d):
+    """The engine's general fisherExactTest with alternative = two.sided / less / greater on one table."""
+    t = d['t']
+    v, _ = judge_fisher(t, d['two'])
+    r = fisher_ref(*t)
+    for alt in ('less', 'greater'):
+        out = d[alt]
+        if isinstance(out, dict):
+            v.append((f'fisher:{alt}:raised', f'fisherExactTest{tuple(t)} alternative={alt} raised {out["err"]}'))
+            continue
+        p, orr, lo, hi = out
+        if r is None:
+            if not all(x != x for x in out) and not close(p, 1.0):
+                v.append(('fisher:degenerate-table', f'fisherExactTest{tuple(t)} alternative={alt} (empty row or column) returned {out}'))
+            continue
+        w, x, tot = r['w'], r['x'], sum(r['w'])
+        i = x - r['lo']
+        pref = Fraction(sum(w[:i + 1]) if alt == 'less' else sum(w[i:]), tot)
+        if not (p == p and 0.0 <= p <= 1.0):
+            v.append((f'fisher:{alt}:p_value-outside-[0,1]', f'fisherExactTest{tuple(t)} alternative={alt} p_value = {p!r}'))
+        if not close(p, pref):
+            v.append((f'fisher:{alt}:p_value', f'fisherExactTest{tuple(t)} alternative={alt} p_value = {p!r}, exact tail {float(pref)!r} (= {pref})'))
+        if alt == 'less':   # interval (0, upper bound at level 0.05)
+            ok = lo == 0.0 and (hi == math.inf if x == r['hi'] else _root_ok(hi, lambda s: _tail_at(r, s, x, False), 0.05, False))
+        else:
+            ok = hi == math.inf and (lo == 0.0 if x == r['lo'] else _root_ok(lo, lambda s: _tail_at(r, s, x, True), 0.05, True))
+        if not ok:
+            v.append((f'fisher:{alt}:confidence-interval', f'fisherExactTest{tuple(t)} alternative={alt} one-sided 95% interval = ({lo!r}, {hi!r})'))
+    return v
+
+
+def _alts_job(cls, n):
+    text = J.run(cls, MAIN, '', args=['alts', n])
+    viol = {}
+    k = ties = 0
+    for line in text.splitlines():
+        d = json.loads(line)
+        k += 1
+        r = fisher_ref(*d['t'])
+        if r is not None:
+            wx = r['w'][r['x'] - r['lo']]
+            ties += sum(1 for y in r['w'] if y == wx) > 1
+        for sig, msg in judge_alts(d):
+            cur = viol.get(sig)
+            rep = {'kind': 'alts', 't': d['t']}
+            if cur is None or _size(d['t']) < _size(cur[1]['t']):
+                viol[sig] = (msg, rep, 1 + (cur[2] if cur else 0))
+            else:
+                viol[sig] = (cur[0], cur[1], cur[2] + 1)
+    return viol, {'alts_tables': k, 'alts_tables_with_equally_probable_table_in_support': ties}
+
+
 def _table_shard(job):
-    cls, n, a_lo, a_hi = job
-    text = J.run(cls, MAIN, '', args=['tables', n, a_lo, a_hi])
+    cls, dargs = job
+    text = J.run(cls, MAIN, '', args=dargs)
     viol = {}
     cnt = {'tables': 0, 'fisher_nondegenerate': 0, 'fisher_degenerate': 0, 'fisher_near_tie': 0, 'fisher_p_lt_0.05': 0,
            'chisq_defined': 0, 'chisq_undefined': 0, 'ctt_calls': 0, 'ctt_chi': 0, 'ctt_fisher': 0, 'or_interior': 0}
@@ -587,7 +641,7 @@ def _selfcheck(cls):
             pk = Fraction(w.get(k, 0), tot)
             want = [float(pk), math.log(pk) if pk else -math.inf, float(Fraction(sum(x for j, x in w.items() if j <= k), tot)),
                     float(Fraction(sum(x for j, x in w.items() if j >= k), tot))]
-            if not all(close(g, e, rel=1e-14, ab=0.0) for g, e in zip(d['v'], want)):
+            if not all(close(g, e, rel=1e-12, ab=1e-14) for g, e in zip(d['v'], want)):
                 raise J.HarnessError(f'C37 self-check: HypergeometricDistribution stand-in wrong at {d}: expected {want}')
         else:
             x, df = d['chisq']
@@ -629,11 +683,16 @@ def check(tier, seed, procs):
         raise J.HarnessError('C37 self-check: scipy chi-square tail disagrees with erfc')
     nshard = max(1, min(procs - 1, ncell + 1, 8 if tier == 'quick' else 15))
     cuts = [round(i * (ncell + 1) / nshard) for i in range(nshard + 1)]
-    jobs = [('large', str(cls), tier), ('hwe', str(cls), ngt)] + par.rotate([('tables', str(cls), ncell, cuts[i], cuts[i + 1] - 1) for i in range(nshard)], seed)
+    ntot = 12 if tier == 'quick' else 30
+    tjobs = [('tables', str(cls), ['tables', ncell, cuts[i], cuts[i + 1] - 1]) for i in range(nshard)]
+    if ntot > ncell:   # tables with total <= ntot that the cell-bounded grid does not contain
+        tjobs.append(('tables', str(cls), ['totalsabove', ntot, ncell]))
+    jobs = [('large', str(cls), tier), ('hwe', str(cls), ngt), ('alts', str(cls), ntot)] + par.rotate(tjobs, seed)
     res = par.pmap(_job, jobs, min(procs, len(jobs)), chunksize=1)
     rows = [r[1:] for r in res if r[0] == 'tables']
     (hv, hcnt, hpv, hsamples), = [r[1:] for r in res if r[0] == 'hwe']
     (lv, lcnt, lsamples), = [r[1:] for r in res if r[0] == 'large']
+    (av, acnt), = [r[1:] for r in res if r[0] == 'alts']
     viol = {}
     cnt = {}
     all_pv = set()
@@ -649,17 +708,24 @@ def check(tier, seed, procs):
                 viol[sig] = (msg, rep, k + (cur[2] if cur else 0))
             else:
                 viol[sig] = (cur[0], cur[1], cur[2] + k)
-    viol.update(hv)
-    for sig, (msg, rep, k) in lv.items():   # a class already seen on a small case keeps its small example
-        if sig in viol:
-            viol[sig] = (viol[sig][0], viol[sig][1], viol[sig][2] + k)
-        else:
-            viol[sig] = (msg, rep, k)
+    def merge(extra, keep_existing_example=False):
+        for sig, (msg, rep, k) in extra.items():
+            cur = viol.get(sig)
+            if cur is None:
+                viol[sig] = (msg, rep, k)
+            elif keep_existing_example or _size(cur[1].get('t') or cur[1].get('g')) <= _size(rep.get('t') or rep.get('g')):
+                viol[sig] = (cur[0], cur[1], cur[2] + k)
+            else:
+                viol[sig] = (msg, rep, cur[2] + k)
+
+    merge(hv)
+    merge(av)
+    merge(lv, keep_existing_example=True)   # a class already seen on a small case keeps its small example
     violations = [{'signature': sig, 'message': f'{msg}   [{k} case(s) of this class in the enumerated domain]', 'replay': rep}
                   for sig, (msg, rep, k) in sorted(viol.items())]
     samples = sorted(samples, key=lambda d: d['t'])[:3] + hsamples[:2] + lsamples[:3]
     evaluations = (cnt['tables'] * 2 + cnt['ctt_calls'] + 2 * hcnt['triples']
-                   + 2 * lcnt['large_hwe'] + 4 * lcnt['large_fisher_tables'] + 3 * lcnt['large_chisq_tables'])
+                   + 3 * acnt['alts_tables'] + 2 * lcnt['large_hwe'] + 4 * lcnt['large_fisher_tables'] + 3 * lcnt['large_chisq_tables'])
     cov = {
         'evaluations': evaluations,
         'distinct_nontrivial': cnt['fisher_nondegenerate'] + hcnt['nontrivial'],
@@ -669,7 +735,7 @@ def check(tier, seed, procs):
                  'whose Levene-Haldane support has >= 2 outcomes; all enumerated cases are distinct by construction.' % (ncell, ngt)),
         'samples': samples,
         'exhaustive': True,
-        'bounds': f'2x2 cells <= {ncell}; genotype counts <= {ngt}; min_cell_count on both sides of each dispatch boundary',
+        'bounds': f'2x2 cells <= {ncell} and every table with total <= {ntot} (also with alternative less / greater); genotype counts <= {ngt}; min_cell_count on both sides of each dispatch boundary',
         'tables': cnt['tables'],
         'tables_degenerate_margins_engine_returns_nan': cnt['fisher_degenerate'],
         'fisher_distinct_p_values': len(all_pv),
@@ -680,6 +746,8 @@ def check(tier, seed, procs):
         'contingency_calls': cnt['ctt_calls'],
         'contingency_dispatched_to_chisq': cnt['ctt_chi'],
         'contingency_dispatched_to_fisher': cnt['ctt_fisher'],
+        'fisher_all_alternatives_tables_total_le_%d' % ntot: acnt['alts_tables'],
+        'fisher_all_alternatives_tables_with_tied_table_in_support': acnt['alts_tables_with_equally_probable_table_in_support'],
         'hwe_triples': hcnt['triples'],
         'hwe_triples_with_equally_probable_outcomes': hcnt['with_exact_tie'],
         'hwe_near_ties': hcnt['near_tie'],
@@ -692,7 +760,7 @@ def check(tier, seed, procs):
     vac = None
     if not (cnt['fisher_nondegenerate'] > 1000 and cnt['ctt_chi'] > 0 and cnt['ctt_fisher'] > 0 and cnt['or_interior'] > 0
             and hcnt['with_exact_tie'] > 0 and hpv > 100 and cnt['fisher_p_lt_0.05'] > 0
-            and lcnt['large_hwe_sensitive'] >= 10 and lcnt['large_hwe_product_over_2^31'] >= 5 and lcnt['large_fisher_tables'] > 0
+            and acnt['alts_tables_with_equally_probable_table_in_support'] > 50 and lcnt['large_hwe_sensitive'] >= 10 and lcnt['large_hwe_product_over_2^31'] >= 5 and lcnt['large_fisher_tables'] > 0
             and lcnt['large_chisq_tables'] > 0):
         vac = f'interesting branches not reached: {cnt} {hcnt} {lcnt}'
     return {
@@ -702,8 +770,9 @@ def check(tier, seed, procs):
             'the code judged is the text of fisherExactTest/chiSquaredTest/contingencyTableTest/hardyWeinbergTest/uniroot/pchisqtail and '
             'LeveneHaldane sliced verbatim from the working tree, compiled with Scala 3.3.4 (-source:3.0-migration) instead of the '
             "engine's Scala 2.12 and run on OpenJDK 17",
-            'the external distribution classes are stand-ins written for this check (vf/jvm/c37_standins.scala): exact BigInt '
-            'HypergeometricDistribution, incomplete-gamma ChiSquare.cumulative, abstract AbstractIntegerDistribution; so what is verified is '
+            'the external distribution classes are stand-ins written for this check (vf/jvm/c37_standins.scala): HypergeometricDistribution '
+            "re-implemented after commons-math3's own algorithm (saddle-point logProbability, exp, cumulative sums; validated against exact "
+            'values at 1e-12) so that mathematically equal table probabilities differ in their last bits as they do in production, incomplete-gamma ChiSquare.cumulative, abstract AbstractIntegerDistribution; so what is verified is '
             "hail's own arithmetic (two-sided accumulation, odds-ratio and confidence-interval search, test dispatch, Levene-Haldane "
             'recurrences and mid-p), not commons-math3 / jdistlib',
             'scala.collection.compat LazyList is replaced by the Scala 2.13 standard LazyList',
@@ -719,7 +788,17 @@ def check(tier, seed, procs):
 
 def replay(obj):
     cls = build()
-    if obj['kind'] == 'table':
+    if obj['kind'] == 'alts':
+        t = obj['t']
+        n = sum(t)
+        for line in J.run(cls, MAIN, '', args=['alts', n]).splitlines():
+            d = json.loads(line)
+            if d['t'] == t:
+                vs = judge_alts(d)
+                break
+        else:
+            raise J.HarnessError(f'C37 replay: table {t} not produced')
+    elif obj['kind'] == 'table':
         line = ('t ' if obj.get('fisher', True) else 'x ') + ' '.join(map(str, obj['t'])) + ' ' + ' '.join(map(str, obj.get('m', [0])))
         d = json.loads(J.run(cls, MAIN, line + '\n', args=['cases']).splitlines()[0])
         vs = _judge_table_line(d)[0]
